@@ -201,7 +201,9 @@ class Module:
         self.src = src
         self.tree = canon(ast.parse(src, filename=relpath))
         from . import inline
-        self.tree, self.inlined, self.inline_failed = inline.apply(self.tree, relpath)
+        self.inliner = inline.Inliner(self.tree, relpath)
+        self.inliner.discover()
+        self.inlined, self.inline_failed = [], []
         self.functions = {}   # qualname -> ast.FunctionDef  ("SHA2.update", "rol", "Blake.update.G")
         self.classes = {}     # name -> ast.ClassDef
         self.assigns = {}     # module-level name -> list of ast.Assign/AugAssign nodes (in order)
@@ -209,6 +211,28 @@ class Module:
         self.stars = []       # modules imported with *
         self.all = None
         self._index()
+
+    def finish_inlining(self, repo):
+        """second phase (all modules are parsed): expand the new helpers, including helper methods that a class inherits
+        from a base class defined in another module"""
+        def foreign(cname):
+            # class `cname` of this module -> [(Inliner of the defining module, class name, ClassDef)] along the chain of bases
+            out = []
+            for (rel, cn) in repo.class_bases(self.relpath, cname):
+                m = repo.modules.get(rel)
+                c = m.classes.get(cn) if m else None
+                if c is None:
+                    break
+                out.append((m.inliner, cn, c))
+            return out
+        self.inliner.foreign = foreign
+        self.tree = self.inliner.run()
+        self.inlined = sorted(set(self.inliner.report))
+        self.inline_failed = self.inliner.failed
+        if self.inlined:
+            # definitions may have been rewritten: rebuild the index
+            self.functions, self.classes, self.assigns, self.imports, self.stars, self.all = {}, {}, {}, {}, [], None
+            self._index()
 
     def _index(self):
         for node in self.tree.body:
@@ -289,6 +313,8 @@ class Repo:
                         continue
                     self.modules[rel] = m
                     self.byname[m.name] = m
+        for m in list(self.modules.values()):
+            m.finish_inlining(self)
 
     # ---- anchors -------------------------------------------------------
     def module(self, relpath):
